@@ -17,6 +17,8 @@ use std::panic::{catch_unwind, AssertUnwindSafe};
 mod more;
 #[path = "c17_unproved.rs"]
 mod unproved;
+#[path = "c17_der.rs"]
+mod der; // D16c: ASN1Writer + CertRef::as_asn1 (kind `der`)
 
 /// where the last panic happened (recorded by the hook installed in `install_hook`)
 pub static LAST_PANIC: std::sync::Mutex<String> = std::sync::Mutex::new(String::new());
@@ -537,6 +539,8 @@ pub fn run_op(kind: &str, op: &str) -> String {
                 r
             } else if let Some(r) = unproved::run_op(k, op) {
                 r
+            } else if let Some(r) = der::run_op(k, op) {
+                r // D16c
             } else {
                 "badkind".into()
             }
@@ -981,6 +985,7 @@ pub fn gen(a: &Args) -> String {
     }
     more::gen(&mut r, &mut out, a.thorough, &mut id);
     unproved::gen(&mut r, &mut out, a.thorough, &mut id);
+    der::gen(&mut r, &mut out, a.thorough, &mut id); // D16c
     out.finish()
 }
 
